@@ -87,6 +87,11 @@ def check_model(case, ev, max_eval=6):
     ev.count("twins_converted_first", n_twins)
     pa = call(m.to_ge_polyhedron, True, what="to_ge_polyhedron(active=True)")
     pi = call(m.to_ge_polyhedron, False, what="to_ge_polyhedron(active=False)")
+    # "without asserting the top node" is what a call without arguments gives (documented default active=False)
+    import numpy as _np
+    pd_ = call(m.to_ge_polyhedron, what="to_ge_polyhedron()")
+    if _np.asarray(pd_).tolist() != _np.asarray(pi).tolist() or [v.id for v in pd_.variables] != [v.id for v in pi.variables]:
+        raise Violation("to_ge_polyhedron() without arguments is not the un-asserted system to_ge_polyhedron(active=False)")
     all_ids = set(lv) | set(comps)
     info = {}
     for name, poly, want in (("active", pa, all_ids - {root_id}), ("inactive", pi, all_ids)):
